@@ -82,6 +82,22 @@ PARENT_MODULES: dict[str, str] = {
         "    u: int = 0\n"
         "class NoInit:\n"
         "    __init__ = None\n"
+        # statically cyclic hierarchies (every link single inheritance / through a two-base class / reached from outside):
+        # the parsers consult parent.parameters and parent[name], which walk the MRO
+        "class CycA(CycB):\n"
+        "    a: int = 0\n"
+        "class CycB(CycA):\n"
+        "    def __init__(self, a: int): ...\n"
+        "class CycC(CycD):\n"
+        "    c: int = 0\n"
+        "class CycD(CycE, K):\n"
+        "    d: int = 0\n"
+        "class CycE(CycC):\n"
+        "    e: int = 0\n"
+        "class IntoCyc(CycA):\n"
+        "    i: int = 0\n"
+        "class SelfBase(SelfBase):\n"
+        "    s: int = 0\n"
     ),
 }
 
@@ -92,7 +108,8 @@ PARENT_REFS: list[tuple[str, str] | None] = (
     + [("classes", ""), ("classes", "K"), ("classes", "Sub"), ("classes", "K.__init__"), ("classes", "Sub.__init__"),
        ("classes", "K.Inner.__init__"), ("classes", "K.meth"), ("classes", "K.prop"), ("classes", "K.tprop"),
        ("classes", "K.gprop"), ("classes", "K.cprop"), ("classes", "K.x"), ("classes", "K.sm"), ("classes", "Ext"), ("classes", "Imp"),
-       ("classes", "NoInit")]
+       ("classes", "NoInit"), ("classes", "CycA"), ("classes", "CycB"), ("classes", "CycC"), ("classes", "CycD"), ("classes", "IntoCyc"),
+       ("classes", "SelfBase"), ("classes", "CycB.__init__")]
     # objects built through the API instead of visited: no file path (built-in-like module), plain-string annotations,
     # and one function that has no parent at all ("@" marks objects that are not members of the module)
     + [("api", ""), ("api", "f"), ("api", "C"), ("api", "C.__init__"), ("api", "C.x"), ("api", "C.p"), ("api", "@lonely")]
@@ -114,7 +131,7 @@ def parent_kind(ref) -> str:  # noqa: ANN001
         return "property"
     if last in ("attr", "x"):
         return "attribute"
-    if last in ("K", "Sub", "C", "Ext", "Imp", "NoInit"):
+    if last in ("K", "Sub", "C", "Ext", "Imp", "NoInit", "CycA", "CycB", "CycC", "CycD", "IntoCyc", "SelfBase"):
         return "class"
     return "function"
 
